@@ -32,10 +32,11 @@ type Stats struct {
 	ExpiryReverted        bool           // a reverted block expired >= 2 contracts of one list
 	TriggerStep           int            // the first step at which Trigger became true (-1: never)
 	// the expiration lists the documented operations produce for the whole history
-	Documented   map[uint64][]types.Hash256
-	FailedReorgs int  // manager calls whose reorg failed half-way and was rolled back (applied steps undone in the same call)
-	MixedBlocks  int  // applied blocks carrying v1 and v2 transactions
-	FinalCut     bool // a block at or above the final-cut height was applied
+	Documented      map[uint64][]types.Hash256
+	FailedReorgs    int  // manager calls whose reorg failed half-way and was rolled back (applied steps undone in the same call)
+	MixedBlocks     int  // applied blocks carrying v1 and v2 transactions
+	FinalCut        bool // a block at or above the final-cut height was applied
+	BelowCheckpoint int  // boundaries after a checkpoint node reverted its own checkpoint block (chain-level sections only)
 }
 
 // twinBase returns the checkpoint the twin for tip has to be opened at.
@@ -94,6 +95,17 @@ func sectionKind(sec string) string {
 // expiration lists (and the expiring contracts served for the next block) that
 // are permutations of the twin's, and the history contains a reverted block
 // after which the documented list operations do not restore the order.
+// compareChainOnly compares the sections that do not come from the element buckets.
+func compareChainOnly(v *View, lin *Lin) *Finding {
+	for _, d := range Compare(v, lin.View) {
+		switch d.Section {
+		case "height", "best-index", "main-chain-bucket", "blocks-and-supplements", "states", "tip-state":
+			return &Finding{Kind: sectionKind(d.Section), Detail: d.Section + ": " + d.Detail}
+		}
+	}
+	return nil
+}
+
 func CompareWithTwin(v *View, lin *Lin, triggered bool, documented map[uint64][]types.Hash256) (f *Finding, known bool) {
 	ds := Compare(v, lin.View)
 	if len(ds) == 0 {
@@ -205,6 +217,7 @@ func Judge(nd *Node, tw *Twins) (_ *Finding, st Stats) {
 	st = Stats{RevertedKinds: map[string]int{}, TriggerStep: -1}
 	appliedInCall := map[[2]int]bool{}
 	failedCall := map[int]bool{}
+	belowCheckpoint := false
 	em := NewExpModel(R)
 	defer func() { st.Documented = em.Lists() }()
 	applied := map[int]Diffs{}
@@ -286,6 +299,17 @@ func Judge(nd *Node, tw *Twins) (_ *Finding, st Stats) {
 				st.CrossAllow = true
 			}
 		}
+		if nd.Base != nil && !s.Apply && nd.gateOn(s) {
+			// The node was opened at a checkpoint at require height + 1 and has now reverted its own
+			// checkpoint block: a reorg below the index the manager itself reports as the lowest
+			// possible fork point (MinReorgIndex). revertElements then runs on element buckets that
+			// never held the chain's elements (they are empty in a checkpoint store) and leaves the
+			// block's spent elements in them. No node fed the best chain alone can be opened at the
+			// same checkpoint, so there is no linear twin for these buckets: from here on only the
+			// chain-level sections are compared with a store opened at the sibling checkpoint (the
+			// buckets themselves stay compared, step by step, with the Coq store model).
+			belowCheckpoint = true
+		}
 		if s.View == nil { // an unobserved step of a quiet node: only the laws about core's diffs are checked
 			continue
 		}
@@ -338,6 +362,17 @@ func Judge(nd *Node, tw *Twins) (_ *Finding, st Stats) {
 			return &Finding{Kind: "c02-twin-failed", Detail: err.Error(), Step: i}, st
 		}
 		st.Compared++
+		if belowCheckpoint {
+			st.BelowCheckpoint++
+			if f := compareChainOnly(s.View, lin); f != nil {
+				f.Step = i
+				return f, st
+			}
+			if panicked != nil {
+				return panicked, st
+			}
+			continue
+		}
 		if f, _ := CompareWithTwin(s.View, lin, st.Trigger, em.Lists()); f != nil {
 			f.Step = i
 			if len(rr) > 0 && (f.Kind == "c02-file-contract-elements-differ" || f.Kind == "c02-accumulator-nodes-differ") {
